@@ -142,7 +142,7 @@ def ensure_coq():
             rc, out = run(["coq_makefile", "-f", "_CoqProject", "-o", "Makefile"], cwd=COQ)
             if rc != 0:
                 raise BuildError("coq_makefile", out)
-        rc, out = run(["make", "-j16"], cwd=COQ, timeout=3000)
+        rc, out = run(["sh", "-c", "ulimit -v 12000000; exec timeout 2400 make -j16"], cwd=COQ, timeout=3000)
         if rc != 0:
             raise BuildError("coq build", out)
         hits = forbidden_scan()
@@ -159,6 +159,41 @@ def ensure_coq():
             with open(stamp, "w") as f:
                 f.write(want)
         return out
+
+
+def property_theorems(prop):
+    """Compiles theories/Properties/<prop>.v on its own (after the full build) and returns
+    (theorem names, {theorem: [assumption lines]}, examples, raw output)."""
+    rel = os.path.join("theories", "Properties", prop + ".v")
+    src = open(os.path.join(COQ, rel)).read()
+    names = re.findall(r"^(?:Theorem|Corollary)\s+(\w+)", src, re.M)
+    examples = re.findall(r"^Example\s+(\w+)", src, re.M)
+    printed = re.findall(r"^Print Assumptions\s+(\w+)\.", src, re.M)
+    os.makedirs(CACHE, exist_ok=True)
+    odir = os.path.join(CACHE, "prop-%d" % os.getpid())
+    os.makedirs(odir, exist_ok=True)
+    out_vo = os.path.join(odir, prop + ".vo")
+    with Lock("coq"):
+        rc, out = run(["sh", "-c", "ulimit -v 12000000; exec timeout 900 coqc -q -w -notation-overridden,-deprecated-hint-without-locality,-deprecated-instance-without-locality -Q theories OrxPar -o %s %s" % (out_vo, rel)], cwd=COQ, timeout=1000)
+    import shutil
+    shutil.rmtree(odir, ignore_errors=True)
+    if rc != 0:
+        raise BuildError("Properties/%s.v does not check" % prop, out)
+    # Print Assumptions output blocks, in order
+    blocks, cur = [], None
+    for line in out.split("\n"):
+        if line.startswith("Closed under the global context"):
+            blocks.append([]); cur = None
+        elif line.startswith("Axioms:") or line.startswith("Section Variables:"):
+            cur = [line.strip()]; blocks.append(cur)
+        elif cur is not None and line.strip() and (line.startswith(" ") or ":" in line):
+            cur.append(line.strip())
+        else:
+            cur = None
+    assum = {}
+    for i, n in enumerate(printed):
+        assum[n] = blocks[i] if i < len(blocks) else ["<no Print Assumptions output>"]
+    return names, assum, examples, out
 
 
 def assumptions_report():
@@ -230,6 +265,12 @@ class Report:
         self.dist = {}
         self.notes = []
         self.correspondences = []
+        import glob
+        for old in glob.glob(os.path.join(REPLAYS, "%s-*.json" % prop)):
+            try:
+                os.remove(old)
+            except OSError:
+                pass
 
     def count(self, key, n=1):
         self.dist[key] = self.dist.get(key, 0) + n
